@@ -25,43 +25,48 @@ namespace SMGo.Proofs.ISAVal
 open SMGo.Model.ISAVal SMGo.Model.GCM SMGo.Proofs.GCM SMGo.Proofs.ISATouch
 open SMGo.Model.ISA (Reg Opd Instr)
 
-/-- ciphertext and tag of `sealAsm` on numbers (12-byte nonce): the ladder from the counter block `nonce ‖ 0,0,0,1`, GHASH from the
-    GHASH of the additional data, then `CalculateSPost` -/
-def sealOutN (rk nonce pt aad : List Nat) (t fuel : Nat) : List Nat :=
-  let jb := nonce ++ [0, 0, 0, 1]
+/-- ciphertext and tag of `sealAsm` on numbers, from the 16 bytes `jb` of the pre-counter block J0: the ladder from the counter block
+    `jb`, GHASH from the GHASH of the additional data, then `CalculateSPost` -/
+def sealOutJ (rk jb pt aad : List Nat) (t fuel : Nat) : List Nat :=
   let r := ladN rk jb (hKey rk) 1 fuel 0 (ghUpdN (hKey rk) 0 aad) pt
   r.1 ++ (lanes 8 16 (tagN (hKey rk) r.2 (unlanes 8 (encB rk jb)) aad.length pt.length)).take t
 
+/-- the same for a 12-byte nonce: J0 = nonce ‖ 0,0,0,1 -/
+def sealOutN (rk nonce pt aad : List Nat) (t fuel : Nat) : List Nat := sealOutJ rk (nonce ++ [0, 0, 0, 1]) pt aad t fuel
+
+/-- the argument slots `sealAsm` reads after the prefix -/
+structure SealFrame (fr : List (String × Nat)) (t sp pl al : Nat) : Prop where
+  dst : lookup fr "dst" = some 77309411328
+  pt : lookup fr "plaintext" = some sp
+  pl : lookup fr "plainLen" = some pl
+  al : lookup fr "aLen" = some al
+  ts : lookup fr "tagSize" = some t
+  tmp : lookup fr "tmp" = some 94489280512
+
 set_option maxHeartbeats 4000000 in
 set_option maxRecDepth 100000 in
-/-- **`sealAsm` from entry to `RET`, 12-byte nonce**: the destination buffer afterwards -/
-theorem seal_reach12 (g v k rk : List Nat) (t : Nat) (dst nonce pt aad tmp : List Nat)
-    (hG : g.length = 16) (hV : v.length = 32) (hK : k.length = 8) (hrk : rk.length = 32) (hrkb : ∀ x ∈ rk, x < 2 ^ 32)
-    (hn : nonce.length = 12) (hnb : ∀ x ∈ nonce, x < 2 ^ 8) (hab : ∀ x ∈ aad, x < 2 ^ 8) (hall : aad.length < 2 ^ 32)
+/-- **`sealAsm` after the common prefix** (instructions 1499 … RET), for any pre-counter block `jb` the prefix has left in VzJ0 and
+    any place `sp` the plaintext is readable from (its own region, or the destination buffer itself: the in-place call) -/
+theorem seal_after_prefix_gen (rk : List Nat) (t : Nat) (dst nonce inp pt aad : List Nat) (sp : Nat)
+    (hrk : rk.length = 32) (hrkb : ∀ x ∈ rk, x < 2 ^ 32) (hall : aad.length < 2 ^ 32)
     (hpb : ∀ x ∈ pt, x < 2 ^ 8) (hpl : pt.length < 2 ^ 32) (ht : t ≤ 16) (hdl : pt.length + t ≤ dst.length) (hdl32 : dst.length < 2 ^ 32)
-    (htmp : tmp.length = 32) (fuel : Nat) (hfuel : fuelNeed pt.length ≤ fuel) :
-    ∃ s' N, N ≤ 34 * (aad.length / 16) + 700 * (pt.length / 256) + 6000 ∧
-      Reach sealR 0 (sealState g v k rk t dst nonce pt aad tmp) 5360 s' N ∧
-      regionBytes s' "dst" = some (spliceAt dst 0 (sealOutN rk nonce pt aad t fuel)) := by
-  obtain ⟨s5, N5, hN5, r5, ap, hf5⟩ := seal_prefix12 g v k rk t dst nonce pt aad tmp hG hV hK hrk hrkb hn hnb hab hall htmp
+    (jb : List Nat) (hjb : jb.length = 16) (hjbb : ∀ x ∈ jb, x < 2 ^ 8) (s5 : State)
+    (ap : AfterPre (fun b => fmem "plaintext" false rk dst nonce inp aad b) rk nonce aad jb 81604378624 94489280512 90194313216 s5)
+    (fr : SealFrame s5.frame t sp pt.length aad.length)
+    (lm : LadMem (fun d t => fmem "plaintext" false rk d nonce inp aad t) 77309411328 dst.length 94489280512 rk pt sp)
+    (hs0 : ∀ b, b.length = 32 → SrcFrom (fmem "plaintext" false rk dst nonce inp aad b) sp pt 0) (hsp : sp + pt.length < 2 ^ 63)
+    (fuel : Nat) (hfuel : fuelNeed pt.length ≤ fuel) :
+    ∃ s' N, N ≤ 700 * (pt.length / 256) + 4500 ∧ Reach sealR 1499 s5 5360 s' N ∧
+      regionBytes s' "dst" = some (spliceAt dst 0 (sealOutJ rk jb pt aad t fuel)) := by
   obtain ⟨b5, hb5, hm5⟩ := ap.mem
   have ss := seal_slices'
-  let jb := nonce ++ [0, 0, 0, 1]
-  have hjb : jb.length = 16 := by simp [jb, hn]
-  have hjbb : ∀ x ∈ jb, x < 2 ^ 8 := by
-    intro x hx
-    rw [List.mem_append] at hx
-    rcases hx with h1 | h1
-    · exact hnb x h1
-    · simp only [List.mem_cons, List.not_mem_nil, or_false] at h1
-      rcases h1 with rfl | rfl | rfl | rfl <;> decide
   -- the arguments of the ladder
-  have fDst : lookup s5.frame "dst" = some 77309411328 := by rw [hf5]; simp [sealState, mkState, lookup]; rfl
-  have fPt : lookup s5.frame "plaintext" = some 85899345920 := by rw [hf5]; simp [sealState, mkState, lookup]; rfl
-  have fPl : lookup s5.frame "plainLen" = some pt.length := by rw [hf5]; simp [sealState, mkState, lookup]
-  have fTs : lookup s5.frame "tagSize" = some t := by rw [hf5]; simp [sealState, mkState, lookup]
+  have fDst := fr.dst
+  have fPt := fr.pt
+  have fPl := fr.pl
+  have fTs := fr.ts
   let a1 := setGreg s5 13 77309411328
-  let a2 := setGreg a1 10 85899345920
+  let a2 := setGreg a1 10 sp
   let a3 := setGreg a2 9 pt.length
   let a4 := setGreg a3 0 (imm64 1)
   have hG5 := ap.pc.lenG
@@ -79,11 +84,10 @@ theorem seal_reach12 (g v k rk : List Nat) (t : Nat) (dst nonce pt aad tmp : Lis
     rcases ap.scratch with h' | h'
     · exact ⟨0, Or.inl rfl, by rw [ka.g 6 (by decide), h']⟩
     · exact ⟨16, Or.inr rfl, by rw [ka.g 6 (by decide), h']⟩
-  have lm := ladMem_fmem "plaintext" false rk nonce pt aad dst.length hrk hdl32 hpl
   have hG4 : a4.gpr.length = 16 := ka.lenG.trans hG5
   -- the ladder
   obtain ⟨s6, N6, hN6, r6, e6⟩ := ladder_reach sealR 1503 8878 (ladSlices_of sealR 1503 8878 ss.lad) seal_ladLabels
-    (fun d t => fmem "plaintext" false rk d nonce pt aad t) 77309411328 dst.length 94489280512 85899345920 rk jb pt lm hrk hrkb hjb hjbb hpb
+    (fun d t => fmem "plaintext" false rk d nonce inp aad t) 77309411328 dst.length 94489280512 sp rk jb pt lm hrk hrkb hjb hjbb hpb
     (by omega) (by omega) (by omega) (by decide) toff (hKey rk) 1 (by decide) hto (ghUpdN (hKey rk) 0 aad) dst b5 a4
     (ap.pc.of_keepsM ka (by decide)) (ap.gh.of_keepsM ka (by decide)) (by rw [ka.g 15 (by decide)]; exact ap.rkp)
     (by show greg (setGreg a3 0 _) 0 = 1; rw [greg_setGreg_eq a3 0 _ (by simp [a3, a2, a1, hG5]), imm64_1'])
@@ -97,7 +101,7 @@ theorem seal_reach12 (g v k rk : List Nat) (t : Nat) (dst nonce pt aad tmp : Lis
         rw [greg_setGreg_ne a2 9 _ 13 (by decide)]; show greg (setGreg a1 10 _) 13 = _
         rw [greg_setGreg_ne a1 10 _ 13 (by decide)]; exact greg_setGreg_eq s5 13 _ (by rw [hG5]; decide))
     h6 (by rw [ka.v 14 (by decide)]; exact ap.j0) (by rw [ka.v 21 (by decide)]; exact ap.tag)
-    (by rw [← ap.tag]; exact ap.taglt) (by show s5.mem = _; exact hm5) rfl hb5
+    (by rw [← ap.tag]; exact ap.taglt) (by show s5.mem = _; exact hm5) rfl hb5 hs0
   have e := e6 (pt.length / 256 + 5) (Nat.le_refl _)
   rw [ladN_fuel rk jb (hKey rk) 1 (pt.length / 256 + 5) fuel 0 _ pt (fuelNeed_le _) hfuel] at e
   obtain ⟨tc6, htc6, hm6⟩ := e.mem
@@ -107,13 +111,12 @@ theorem seal_reach12 (g v k rk : List Nat) (t : Nat) (dst nonce pt aad tmp : Lis
     have := reach_seg (s := s6) (s' := s6) sN (by rfl) (by apply exec_step (s1 := s6); · rfl
                                                            exact execList_nil _)
     exact this
-  have hf6 : s6.frame = (sealState g v k rk t dst nonce pt aad tmp).frame := by
-    rw [e.keep.frame]; show s5.frame = _; exact hf5
-  have fDst6 : lookup s6.frame "dst" = some 77309411328 := by rw [hf6]; simp [sealState, mkState, lookup]; rfl
-  have fAl6 : lookup s6.frame "aLen" = some aad.length := by rw [hf6]; simp [sealState, mkState, lookup]
-  have fPl6 : lookup s6.frame "plainLen" = some pt.length := by rw [hf6]; simp [sealState, mkState, lookup]
-  have fTs6 : lookup s6.frame "tagSize" = some t := by rw [hf6]; simp [sealState, mkState, lookup]
-  have fTmp6 : lookup s6.frame "tmp" = some 94489280512 := by rw [hf6]; simp [sealState, mkState, lookup]; rfl
+  have hf6 : s6.frame = s5.frame := by rw [e.keep.frame]; rfl
+  have fDst6 : lookup s6.frame "dst" = some 77309411328 := by rw [hf6]; exact fr.dst
+  have fAl6 : lookup s6.frame "aLen" = some aad.length := by rw [hf6]; exact fr.al
+  have fPl6 : lookup s6.frame "plainLen" = some pt.length := by rw [hf6]; exact fr.pl
+  have fTs6 : lookup s6.frame "tagSize" = some t := by rw [hf6]; exact fr.ts
+  have fTmp6 : lookup s6.frame "tmp" = some 94489280512 := by rw [hf6]; exact fr.tmp
   have hG6 := e.pc.lenG
   let p1 := setGreg s6 13 77309411328
   let p2 := setGreg p1 7 aad.length
@@ -171,15 +174,15 @@ theorem seal_reach12 (g v k rk : List Nat) (t : Nat) (dst nonce pt aad tmp : Lis
     (label_findPc seal_labels (name := "tag.copy8") (by decide)) (label_findPc seal_labels (name := "tag.copy4") (by decide))
     (label_findPc seal_labels (name := "tag.copy2") (by decide)) (label_findPc seal_labels (name := "tag.copy1") (by decide))
     (label_findPc seal_labels (name := "tag.copyEnd") (by decide))
-    (fun d t => fmem "plaintext" false rk d nonce pt aad t) 77309411328 dst.length 94489280512 32 (by decide) lm.m2 (by omega) (by decide)
+    (fun d t => fmem "plaintext" false rk d nonce inp aad t) 77309411328 dst.length 94489280512 32 (by decide) lm.m2 (by omega) (by decide)
     p6 (hKey rk) (e.gh.of_keepsM kp (by decide)) (kp.syms.trans e.pc.syms) _ tc6 hdc6 htc6 (by show s6.mem = _; exact hm6)
     aad.length pt.length t pt.length _ (unlanes 8 (encB rk jb)) g67 g69 (by omega) (by omega) g613 g614 ht (by omega) g66
     (by rw [kp.v 21 (by decide)]; exact e.acc) e.acclt
     (by rw [kp.v 15 (by decide), e.keep.v 15 (by decide), ka.v 15 (by decide)]; exact ap.tmask) htm
-  refine ⟨s8, N5 + 4 + N6 + 1 + 6 + N8, by omega, ((((r5.trans ra).trans r6).trans rN).trans rp).trans r8, ?_⟩
+  refine ⟨s8, 4 + N6 + 1 + 6 + N8, by omega, (((ra.trans r6).trans rN).trans rp).trans r8, ?_⟩
   rw [regionBytes_fmem s8 _ _ _ _ _ _ _ _ m8]
   congr 1
-  unfold sealOutN
+  unfold sealOutJ
   have hl1 : (ladN rk jb (hKey rk) 1 fuel 0 (ghUpdN (hKey rk) 0 aad) pt).1.length = pt.length :=
     ladN_length rk jb (hKey rk) 1 fuel 0 _ pt hfuel
   have key := spliceAt_spliceAt' dst 0 (ladN rk jb (hKey rk) 1 fuel 0 (ghUpdN (hKey rk) 0 aad) pt).1
@@ -187,5 +190,46 @@ theorem seal_reach12 (g v k rk : List Nat) (t : Nat) (dst nonce pt aad tmp : Lis
     (by rw [hl1]; omega)
   rw [hl1, Nat.zero_add] at key
   exact key
+
+theorem sealState_frame (g v k rk : List Nat) (t : Nat) (dst nonce pt aad tmp : List Nat) :
+    SealFrame (sealState g v k rk t dst nonce pt aad tmp).frame t 85899345920 pt.length aad.length :=
+  ⟨by simp [sealState, mkState, lookup]; rfl, by simp [sealState, mkState, lookup]; rfl, by simp [sealState, mkState, lookup],
+   by simp [sealState, mkState, lookup], by simp [sealState, mkState, lookup], by simp [sealState, mkState, lookup]; rfl⟩
+
+/-- **`sealAsm` after the common prefix**, plaintext in its own region -/
+theorem seal_after_prefix (g v k rk : List Nat) (t : Nat) (dst nonce pt aad tmp : List Nat)
+    (hrk : rk.length = 32) (hrkb : ∀ x ∈ rk, x < 2 ^ 32) (hall : aad.length < 2 ^ 32)
+    (hpb : ∀ x ∈ pt, x < 2 ^ 8) (hpl : pt.length < 2 ^ 32) (ht : t ≤ 16) (hdl : pt.length + t ≤ dst.length) (hdl32 : dst.length < 2 ^ 32)
+    (jb : List Nat) (hjb : jb.length = 16) (hjbb : ∀ x ∈ jb, x < 2 ^ 8) (s5 : State)
+    (ap : AfterPre (fun b => fmem "plaintext" false rk dst nonce pt aad b) rk nonce aad jb 81604378624 94489280512 90194313216 s5)
+    (hf5 : s5.frame = (sealState g v k rk t dst nonce pt aad tmp).frame) (fuel : Nat) (hfuel : fuelNeed pt.length ≤ fuel) :
+    ∃ s' N, N ≤ 700 * (pt.length / 256) + 4500 ∧ Reach sealR 1499 s5 5360 s' N ∧
+      regionBytes s' "dst" = some (spliceAt dst 0 (sealOutJ rk jb pt aad t fuel)) :=
+  seal_after_prefix_gen rk t dst nonce pt pt aad 85899345920 hrk hrkb hall hpb hpl ht hdl hdl32 jb hjb hjbb s5 ap
+    (by rw [hf5]; exact sealState_frame g v k rk t dst nonce pt aad tmp)
+    (ladMem_fmem "plaintext" false rk nonce pt aad dst.length hrk hdl32 hpl)
+    (fun b _ => srcFrom_fmem "plaintext" false rk dst nonce pt aad b hpl 0) (by omega) fuel hfuel
+
+
+/-- **`sealAsm` from entry to `RET`, 12-byte nonce**: the destination buffer afterwards -/
+theorem seal_reach12 (g v k rk : List Nat) (t : Nat) (dst nonce pt aad tmp : List Nat)
+    (hG : g.length = 16) (hV : v.length = 32) (hK : k.length = 8) (hrk : rk.length = 32) (hrkb : ∀ x ∈ rk, x < 2 ^ 32)
+    (hn : nonce.length = 12) (hnb : ∀ x ∈ nonce, x < 2 ^ 8) (hab : ∀ x ∈ aad, x < 2 ^ 8) (hall : aad.length < 2 ^ 32)
+    (hpb : ∀ x ∈ pt, x < 2 ^ 8) (hpl : pt.length < 2 ^ 32) (ht : t ≤ 16) (hdl : pt.length + t ≤ dst.length) (hdl32 : dst.length < 2 ^ 32)
+    (htmp : tmp.length = 32) (fuel : Nat) (hfuel : fuelNeed pt.length ≤ fuel) :
+    ∃ s' N, N ≤ 34 * (aad.length / 16) + 700 * (pt.length / 256) + 6000 ∧
+      Reach sealR 0 (sealState g v k rk t dst nonce pt aad tmp) 5360 s' N ∧
+      regionBytes s' "dst" = some (spliceAt dst 0 (sealOutN rk nonce pt aad t fuel)) := by
+  obtain ⟨s5, N5, hN5, r5, ap, hf5⟩ := seal_prefix12 g v k rk t dst nonce pt aad tmp hG hV hK hrk hrkb hn hnb hab hall htmp
+  have hjb : (nonce ++ [0, 0, 0, 1]).length = 16 := by simp [hn]
+  have hjbb : ∀ x ∈ nonce ++ [0, 0, 0, 1], x < 2 ^ 8 := by
+    intro x hx
+    rw [List.mem_append] at hx
+    rcases hx with h1 | h1
+    · exact hnb x h1
+    · simp only [List.mem_cons, List.not_mem_nil, or_false] at h1
+      rcases h1 with rfl | rfl | rfl | rfl <;> decide
+  obtain ⟨s', N, hN, r6, hd⟩ := seal_after_prefix g v k rk t dst nonce pt aad tmp hrk hrkb hall hpb hpl ht hdl hdl32 _ hjb hjbb s5 ap hf5 fuel hfuel
+  exact ⟨s', N5 + N, by omega, r5.trans r6, hd⟩
 
 end SMGo.Proofs.ISAVal
